@@ -173,6 +173,13 @@ func checkC08(c *StabilityCase) error {
 	if err := verify("after the stream ended"); err != nil {
 		return err
 	}
+	// serialising what was kept is a read: it changes nothing
+	for _, tx := range retained {
+		guard(func() error { _, e := json.Marshal(tx); return e })
+	}
+	if err := verify("after the retained transactions were serialised to JSON"); err != nil {
+		return err
+	}
 	// (3a) a second attempt on the SAME streamer, from the start again: whatever the library recycles
 	// between attempts must not reach into transactions it handed out earlier
 	ss.s.SetBinlogPosition(gobinlog.Position{Filename: start.File, Offset: start.Off})
